@@ -32,9 +32,9 @@ class Chunk:
             if "vertices" in txt: return cls.VERTICES
             if "edges" in txt : return cls.EDGES
             if "facet_corners" in txt : return cls.FACE_CORNERS
-            if "facets" in txt : return cls.FACES
             if "cell_corners" in txt : return cls.CELL_CORNERS
-            if "cell_facets" in txt : return cls.CELL_FACETS
+            if "cell_facets" in txt : return cls.CELL_FACETS # before "facets", which it contains
+            if "facets" in txt : return cls.FACES
             if "cells" in txt : return cls.CELLS
 
         def to_string(self):
